@@ -29,7 +29,7 @@ SHAPES = {
 }
 
 
-def q_bar(sig, shape, factor, key, symden, stale_times=False):
+def q_bar(sig, shape, factor, key, symden, stale_times=False, via_abs=False):
     num, den = sig
     cap = num * 24 * 4 // den
 
@@ -56,6 +56,10 @@ def q_bar(sig, shape, factor, key, symden, stale_times=False):
                 if m_.message_type != WAIT:
                     m_.time = ctx.int(f"stale{i_}", 0, 2 * cap)
         seq = rel_sequence(b.msgs)
+        if via_abs:
+            # the sequence went through an absolute-view reader first: only its absolute view is current
+            for _m in seq.messages_abs():
+                pass
         ok, res = call(Bar, seq, num, den, key)
         too_long = b.total > cap
         conflicting = or_([not_(and_(eq(n_, num), eq(d_, den))) for n_, d_ in tsx]) if tsx else False
@@ -89,7 +93,7 @@ def q_bar(sig, shape, factor, key, symden, stale_times=False):
                                         cp.key_signature == key, cp.sequence is not bar.sequence))
             ctx.must("copy_library_eq", cp.sequence == bar.sequence)
         return ["accepted", obs_rel(msgs), da]
-    return Query(f"{num}-{den}/{shape}/x{factor}/key{key.value if key else None}{'/symden' if symden else ''}{'/stale' if stale_times else ''}", fn,
+    return Query(f"{num}-{den}/{shape}/x{factor}/key{key.value if key else None}{'/symden' if symden else ''}{'/stale' if stale_times else ''}{'/via_abs' if via_abs else ''}", fn,
                  [], desc=f"Bar({shape}, {num}/{den})")
 
 
@@ -103,6 +107,9 @@ def queries(tier, seed):
     for sig in ((4, 4), (6, 8), (3, 8)):
         qs.append(q_bar(sig, "n1", 2, None, False, stale_times=True))
         qs.append(q_bar(sig, "ts_n1", 2, None, False, stale_times=True))
+    for sig in ((4, 4), (6, 8), (3, 8)):
+        for s in ("rest", "n1", "ts_n1"):
+            qs.append(q_bar(sig, s, 2, None, False, via_abs=True))
     for sig in SIGS:
         # signature events whose denominator is symbolic in {2,4,8} as well
         qs.append(q_bar(sig, "ts_ts", 2, KEYS[4], True))
